@@ -206,7 +206,12 @@ func parseAgain(op *engine.Op, b []byte) string {
 	return obs.Observe(res.Val, obsOpt)
 }
 
-var obsOpt = &obs.Options{SelfEquals: true}
+// the full observation calls, besides every argument-free accessor, x.Equals(x)
+// and the read-only methods that take simple arguments (two synthesised
+// argument sets each), on the value and on its nested objects
+var obsOpt = &obs.Options{SelfEquals: true, Args: consume.SynthArgs, ArgMethod: func(n string) bool {
+	return consume.ReadOnlyName(n) && n != "Equals" && n != "Equal"
+}}
 
 // callables lists what a task may call on the value: every exported
 // argument-free method (mutators and generators excluded), Equals/Equal
